@@ -186,6 +186,10 @@ pub mod tstd {
             in_i32(trunc_rem(x as int, y as int));
     pub assume_specification[i32::wrapping_abs](x: i32) -> (r: i32)
         ensures r == (if x == i32::MIN { i32::MIN } else if x < 0 { (-(x as int)) as i32 } else { x });
+    pub assume_specification[i32::saturating_abs](x: i32) -> (r: i32)
+        ensures r == (if x == i32::MIN { i32::MAX } else if x < 0 { (-(x as int)) as i32 } else { x });
+    pub assume_specification[f32::is_finite](x: f32) -> (r: bool) ensures r == f_is_finite(x);
+    pub assume_specification[f32::is_nan](x: f32) -> (r: bool) ensures r == f_is_nan(x);
     pub uninterp spec fn cmp_min_spec<T>(a: T, b: T) -> T;
     pub assume_specification<T: Ord>[core::cmp::min::<T>](a: T, b: T) -> (r: T)
         ensures r == cmp_min_spec(a, b);
@@ -244,6 +248,11 @@ pub mod spec {
     pub open spec fn shrunk<T>(a: Seq<T>, b: Seq<T>, need: int) -> bool {
         b.len() <= a.len() && a.len() - need <= b.len() && b =~= a.subrange(0, b.len() as int)
     }
+    /// b is a after at most `maxpop` items were taken from the top and at most `maxpush` pushed: everything below is untouched
+    pub open spec fn below_kept<T>(a: Seq<T>, b: Seq<T>, maxpop: int, maxpush: int) -> bool {
+        let keep = if a.len() >= maxpop { a.len() - maxpop } else { 0 };
+        keep <= b.len() <= a.len() + maxpush && b.subrange(0, keep) =~= a.subrange(0, keep)
+    }
     /// index operand clamped into 0..n-1 (0 when n == 0): "clamped into the valid range"
     pub open spec fn clamp_idx(i: int, n: int) -> int {
         if n <= 0 { 0 } else if i < 0 { 0 } else if i > n - 1 { n - 1 } else { i }
@@ -294,7 +303,7 @@ pub mod spec {
             <f32 as RemSpec>::obeys_rem_spec(),
             <f32 as PartialOrdSpec>::obeys_partial_cmp_spec(), <f32 as PartialEqSpec>::obeys_eq_spec();
     pub broadcast group group_float_total {
-        ax_f32_add_req, ax_f32_sub_req, ax_f32_mul_req, ax_f32_div_req, ax_f32_rem_req, ax_f32_obeys,
+        ax_f32_add_req, ax_f32_sub_req, ax_f32_mul_req, ax_f32_div_req, ax_f32_rem_req, ax_f32_obeys, ax_normal_std_ok,
     }
     pub open spec fn f32_add(a: f32, b: f32) -> f32 { a.add_spec(b) }
     pub open spec fn f32_sub(a: f32, b: f32) -> f32 { a.sub_spec(b) }
@@ -306,6 +315,11 @@ pub mod spec {
     pub open spec fn f32_gt(a: f32, b: f32) -> bool { a.partial_cmp_spec(&b) == Some(core::cmp::Ordering::Greater) }
     pub open spec fn f32_le(a: f32, b: f32) -> bool { a.partial_cmp_spec(&b) == Some(core::cmp::Ordering::Less) || a.partial_cmp_spec(&b) == Some(core::cmp::Ordering::Equal) }
     pub open spec fn f32_eq(a: f32, b: f32) -> bool { a.eq_spec(&b) }
+    pub open spec fn f32_ge(a: f32, b: f32) -> bool { a.partial_cmp_spec(&b) == Some(core::cmp::Ordering::Greater) || a.partial_cmp_spec(&b) == Some(core::cmp::Ordering::Equal) }
+    /// float lemma L2 (discharged bit-precisely by the Kani harness `l2_normal_new` against rand_distr's real code):
+    /// Normal::new(mean, s) succeeds exactly when s is finite and s >= 0.0
+    pub broadcast axiom fn ax_normal_std_ok(s: f32)
+        ensures #[trigger] crate::rand_stub::normal_std_ok(s) <==> (f_is_finite(s) && f32_ge(s, 0.0f32));
     // A-hash: String's Hash and Eq are consistent (vstd has this for the primitive key types)
     #[verifier::allow(broadcast_without_trigger)]
     pub broadcast axiom fn ax_string_key_model() ensures vstd::std_specs::hash::obeys_key_model::<String>();
@@ -359,6 +373,8 @@ pub mod spec {
     }
     
     
+    pub uninterp spec fn f_is_finite(x: f32) -> bool;
+    pub uninterp spec fn f_is_nan(x: f32) -> bool;
     pub uninterp spec fn f_sin(x: f32) -> f32;
     pub uninterp spec fn f_cos(x: f32) -> f32;
     pub uninterp spec fn f_tan(x: f32) -> f32;
